@@ -1,0 +1,119 @@
+//go:build verif
+
+// Contracts for package netsample, checked by /verif/govc. Comment-only: no code.
+package netsample
+
+//@ iface Aggregator.Report
+//@ ensures ev(report) == old(ev(report)) + 1
+//@ modifies ev(report)
+
+// Field positions of a phout line, in the documented order.
+//@ lemma phout-field-order
+//@ props C06 C10
+//@ ensures keyRTTMicro == 0 && keyConnectMicro == 1 && keySendMicro == 2 && keyLatencyMicro == 3 && keyReceiveMicro == 4
+//@ ensures keyIntervalEventMicro == 5 && keyRequestBytes == 6 && keyResponseBytes == 7 && keyErrno == 8 && keyProtoCode == 9 && fieldsNum == 10
+
+// Small accessors are verified inline at their call sites.
+//@ func (s *Sample) get
+//@ inline
+//@ func (s *Sample) set
+//@ inline
+//@ func (s *Sample) setDuration
+//@ inline
+//@ func (s *Sample) setRTT
+//@ inline
+
+//@ func (s *Sample) Tags
+//@ props C10
+//@ modifies nothing
+//@ ensures result == s.tags
+
+//@ func (s *Sample) AddTag
+//@ props C10
+//@ ensures [first-tag] imp(old(s.tags) == "", s.tags == tag)
+//@ ensures [further-tags-are-appended] imp(old(s.tags) != "", s.tags == old(s.tags) + ("|" + tag))
+//@ modifies s.tags
+
+//@ func (s *Sample) SetID
+//@ props C10
+//@ ensures s.id == id
+//@ modifies s.id
+
+//@ func (s *Sample) ID
+//@ props C10
+//@ modifies nothing
+//@ ensures result == s.id
+
+//@ func (s *Sample) ProtoCode
+//@ props C10
+//@ modifies nothing
+//@ ensures result == s.fields[keyProtoCode]
+
+//@ func (s *Sample) Err
+//@ props C10
+//@ modifies nothing
+//@ ensures result == s.err
+
+// The protocol code is stored as given; only the round-trip time may be stamped besides it.
+//@ func (s *Sample) SetProtoCode
+//@ props C10
+//@ ensures [code-stored] s.fields[keyProtoCode] == code
+//@ ensures [other-fields-kept] forall(k, 1, 9, s.fields[k] == old(s.fields)[k])
+//@ modifies s.fields
+
+//@ func (s *Sample) SetErr
+//@ props C10
+//@ ensures [error-and-its-net-code-stored] s.err == err && s.fields[keyErrno] == result_of(getErrno, 0)
+//@ ensures [other-fields-kept] forall(k, 1, 8, s.fields[k] == old(s.fields)[k]) && s.fields[keyProtoCode] == old(s.fields)[keyProtoCode]
+//@ modifies s.err, s.fields
+
+// Timing and size setters touch the numeric fields only.
+//@ func (s *Sample) SetConnectTime
+//@ props C10
+//@ modifies s.fields
+//@ ensures s.fields[keyProtoCode] == old(s.fields)[keyProtoCode] && s.fields[keyErrno] == old(s.fields)[keyErrno]
+//@ func (s *Sample) SetSendTime
+//@ props C10
+//@ modifies s.fields
+//@ ensures s.fields[keyProtoCode] == old(s.fields)[keyProtoCode] && s.fields[keyErrno] == old(s.fields)[keyErrno]
+//@ func (s *Sample) SetLatency
+//@ props C10
+//@ modifies s.fields
+//@ ensures s.fields[keyProtoCode] == old(s.fields)[keyProtoCode] && s.fields[keyErrno] == old(s.fields)[keyErrno]
+//@ func (s *Sample) SetReceiveTime
+//@ props C10
+//@ modifies s.fields
+//@ ensures s.fields[keyProtoCode] == old(s.fields)[keyProtoCode] && s.fields[keyErrno] == old(s.fields)[keyErrno]
+//@ func (s *Sample) SetRequestBytes
+//@ props C10
+//@ modifies s.fields
+//@ ensures s.fields[keyProtoCode] == old(s.fields)[keyProtoCode] && s.fields[keyErrno] == old(s.fields)[keyErrno]
+//@ func (s *Sample) SetResponseBytes
+//@ props C10
+//@ modifies s.fields
+//@ ensures s.fields[keyProtoCode] == old(s.fields)[keyProtoCode] && s.fields[keyErrno] == old(s.fields)[keyErrno]
+
+//@ func (s *Sample) SetUserNet
+//@ props C10 C04
+//@ ensures s.fields[keyErrno] == code && forall(k, 0, 10, imp(k != keyErrno, s.fields[k] == old(s.fields)[k]))
+//@ modifies s.fields
+
+// Net code of a failed exchange: 110 for timeouts, the errno at the bottom of the error chain, 999 otherwise. No fault for any error value.
+//@ func getErrno
+//@ props C10 C19
+//@ nilsafe
+//@ modifies nothing
+//@ ensures [nil-error-has-the-legacy-code] imp(err == nil, result == 999)
+
+// The sample reported for a discarded shot: net code 777, tag "discarded".
+//@ func DiscardedShootSample
+//@ props C04 C10
+//@ modifies nothing
+//@ ensures [discarded-sample] fresh(result) && result.tags == "discarded" && result.fields[keyErrno] == 777 && result.fields[keyProtoCode] == 0 && result.err == nil
+//@ ensures DiscardedShootCodeError == 777 && DiscardedShootTag == "discarded"
+
+//@ func Acquire
+//@ props C10 C11
+//@ env pooltype(samplePool, *Sample)
+//@ ensures [a-blank-sample-with-the-tag] result != nil && result.tags == tag && result.id == 0 && result.err == nil && forall(k, 0, 10, result.fields[k] == 0)
+//@ modifies nothing
